@@ -1,10 +1,125 @@
-(* C02 — every back end behaves like one per-bucket event list.  (theorems are added as
-   they are proved; see notes/agents/C02.md) *)
+(* C02 — every back end behaves like one simple per-bucket event list under any history.
+   Property statements only.  Models: Model/{Mem,Sqlite,Peewee}Store.v, reference model
+   Model/StoreSpec.v (spec_step: fresh id = any id not live in the bucket, newest = any event of
+   maximal timestamp, pre = the quantifier's side condition).  Proofs: Proofs/Store*.v.
+   Proved here: memory and sqlite refine the reference model step by step and over all
+   histories; the corollaries named in the property text.  The peewee refinement and the
+   id-renaming form of interchangeability are stated in notes/agents/C02.md (not proved). *)
 From AwVerif Require Import Base.Prelude Model.StoreBase Model.MemStore Model.SqliteStore
-  Model.PeeweeStore Model.StoreSpec.
+  Model.PeeweeStore Model.StoreSpec Proofs.StoreMemProofs Proofs.StoreMemRefine
+  Proofs.StoreSpecFacts Proofs.StoreSqliteProofs Proofs.StoreSqliteRefine
+  Proofs.StorePeeweeProofs Proofs.StoreC02.
 
-(* Non-vacuity / the tie pattern of the repaired defect: [0,10] then a zero-length event at
-   10, then replace_last: every model rewrites the event its own limit-1 read returns. *)
+(* --- refinement, one step: the step returns (does not raise) and is a step of the
+       reference model between the abstractions (memory: the state itself) --- *)
+Theorem C02_mem_refines : forall c op, mem_Inv c -> pre c op ->
+  exists out, snd (mem_step c op) = Ok out /\ spec_step c op (fst (mem_step c op)) out.
+Proof. exact mem_refines. Qed.
+Print Assumptions C02_mem_refines.
+
+Theorem C02_sqlite_refines : forall c op, sq_Inv c -> sq_Dom c -> pre (sq_abs c) op ->
+  exists out, snd (sq_step c op) = Ok out /\
+              spec_step (sq_abs c) op (sq_abs (fst (sq_step c op))) out.
+Proof. exact sq_refines. Qed.
+Print Assumptions C02_sqlite_refines.
+
+(* the abstraction is the read-back: looking a bucket up in sq_abs is sq_view *)
+Theorem C02_sqlite_abs_is_view : forall c b, aget b (sq_abs c) = sq_view c b.
+Proof. exact aget_sq_abs. Qed.
+Print Assumptions C02_sqlite_abs_is_view.
+
+(* the domain invariant of the sqlite refinement (no event ends before the epoch) holds
+   initially and is kept by operations whose events are in the domain *)
+Theorem C02_sqlite_dom_step : forall c op, sq_Dom c -> op_dom op -> sq_Dom (fst (sq_step c op)).
+Proof. exact sq_step_Dom. Qed.
+Print Assumptions C02_sqlite_dom_step.
+
+(* --- refinement, all histories --- *)
+Theorem C02_mem_refines_histories : forall h c, mem_Inv c -> mem_hist_ok c h ->
+  spec_run c h (mem_run c h) /\ mem_Inv (mem_run c h).
+Proof. exact mem_refines_run. Qed.
+Print Assumptions C02_mem_refines_histories.
+
+Theorem C02_sqlite_refines_histories : forall h c, sq_Inv c -> sq_Dom c -> sq_hist_ok c h ->
+  spec_run (sq_abs c) h (sq_abs (sq_run c h)) /\ sq_Inv (sq_run c h) /\ sq_Dom (sq_run c h).
+Proof. exact sq_refines_run. Qed.
+Print Assumptions C02_sqlite_refines_histories.
+
+(* --- replace_last rewrites exactly the event the limit-1 read returned immediately
+       before it: same id, the rest of the bucket as it was (other buckets: C04) --- *)
+Theorem C02_replace_last_hits_limit1_mem : forall c b e x m es,
+  mem_Inv c -> mem_view c b = Some (m, es) ->
+  snd (mem_step c (GetEvents b 1 None None)) = Ok (OEvents [x]) ->
+  exists i, eid x = Some i /\ In x es /\
+            mem_view (fst (mem_step c (ReplaceLast b e))) b = Some (m, spec_replace i e es).
+Proof. exact mem_replace_last_hits_limit1. Qed.
+Print Assumptions C02_replace_last_hits_limit1_mem.
+
+Theorem C02_replace_last_hits_limit1_sqlite : forall c b e x m es,
+  sq_Dom c -> sq_view c b = Some (m, es) ->
+  snd (sq_step c (GetEvents b 1 None None)) = Ok (OEvents [x]) ->
+  exists i, eid x = Some i /\ In x es /\
+            sq_view (fst (sq_step c (ReplaceLast b e))) b = Some (m, spec_replace i e es).
+Proof. exact sq_replace_last_hits_limit1. Qed.
+Print Assumptions C02_replace_last_hits_limit1_sqlite.
+
+(* --- delete removes exactly the addressed event and says whether it existed: ANY id --- *)
+Theorem C02_delete_exact_mem : forall c b i m es,
+  mem_Inv c -> mem_view c b = Some (m, es) ->
+  mem_view (fst (mem_step c (Delete b i))) b = Some (m, spec_delete i es) /\
+  snd (mem_step c (Delete b i)) = Ok (OBool (if in_dec Z.eq_dec i (live_ids es) then true else false)).
+Proof. exact mem_delete_exact. Qed.
+Print Assumptions C02_delete_exact_mem.
+
+Theorem C02_delete_exact_sqlite : forall c b i m es,
+  sq_Inv c -> sq_view c b = Some (m, es) ->
+  sq_view (fst (sq_step c (Delete b i))) b = Some (m, spec_delete i es) /\
+  snd (sq_step c (Delete b i)) = Ok (OBool (if in_dec Z.eq_dec i (live_ids es) then true else false)).
+Proof. exact sq_delete_exact. Qed.
+Print Assumptions C02_delete_exact_sqlite.
+
+(* --- at every moment an id names at most one live event of its bucket (after ANY history,
+       no side condition), and replace / replace_last never change an id --- *)
+Theorem C02_ids_unique_among_live_mem : forall h b m es,
+  mem_view (mem_run mem_init h) b = Some (m, es) -> ids_unique es.
+Proof. exact mem_ids_unique_reachable. Qed.
+Print Assumptions C02_ids_unique_among_live_mem.
+
+Theorem C02_ids_unique_among_live_sqlite : forall h b m es,
+  sq_view (sq_run sq_init h) b = Some (m, es) -> ids_unique es.
+Proof. exact sq_ids_unique_reachable. Qed.
+Print Assumptions C02_ids_unique_among_live_sqlite.
+
+Theorem C02_ids_unique_among_live_peewee : forall h b m es,
+  pw_view (pw_run pw_init h) b = Some (m, es) -> ids_unique es.
+Proof. exact pw_ids_unique_reachable. Qed.
+Print Assumptions C02_ids_unique_among_live_peewee.
+
+Theorem C02_replace_keeps_ids : forall i e es, live_ids (spec_replace i e es) = live_ids es.
+Proof. exact replace_keeps_ids. Qed.
+Print Assumptions C02_replace_keeps_ids.
+
+(* --- bulk upsert-then-insert (what the SQL back ends do) is the sequential bulk operation
+       of the reference model when the upsert ids are live beforehand --- *)
+Theorem C02_bulk_reorder : forall es cur R,
+  (forall e i, In e es -> eid e = Some i -> is_live i cur) ->
+  spec_many (ups cur es) (filter noid es) R -> spec_many cur es R.
+Proof. exact spec_many_reorder. Qed.
+Print Assumptions C02_bulk_reorder.
+
+(* --- interchangeability, the part that is proved: memory and sqlite, fed a history that
+       meets the side condition on each, both end in states the ONE reference model reaches
+       from the empty store by that history (the id-renaming form is in the notes) --- *)
+Theorem C02_backends_interchangeable_partial : forall h,
+  mem_hist_ok mem_init h -> sq_hist_ok sq_init h ->
+  spec_run spec_init h (mem_run mem_init h) /\ spec_run spec_init h (sq_abs (sq_run sq_init h)).
+Proof. exact mem_sqlite_same_spec. Qed.
+Print Assumptions C02_backends_interchangeable_partial.
+
+(* Non-vacuity.  (1) The tie pattern of the repaired defect: [0,10] then a zero-length event at
+   10: the limit-1 read returns id 2 and replace_last rewrites id 2.  (2) A history with a tie
+   in the start instants, a bulk upsert+insert, delete and replace_last meets the side
+   condition at every step on the sqlite model, so the refinement theorem applies to it. *)
 Example C02_nonvacuous_sqlite :
   let m := mkMeta 1 1 1 0 None 0 in
   let h := [CreateBucket 1 m; InsertOne 1 (mkEvent None 0 10 1); InsertOne 1 (mkEvent None 10 0 2)] in
@@ -12,3 +127,18 @@ Example C02_nonvacuous_sqlite :
   sq_view (sq_run sq_init (h ++ [ReplaceLast 1 (mkEvent None 10 5 3)])) 1
   = Some (m, [mkEvent (Some 1) 0 10 1; mkEvent (Some 2) 10 5 3]).
 Proof. vm_compute. split; reflexivity. Qed.
+
+Example C02_nonvacuous_history :
+  let m := mkMeta 1 1 1 0 None 0 in
+  sq_hist_ok sq_init
+    [CreateBucket 1 m; CreateBucket 2 m; InsertOne 1 (mkEvent None 5 1 1); InsertOne 1 (mkEvent None 5 0 2);
+     InsertMany 1 [mkEvent None 5 2 3; mkEvent (Some 1) 7 0 4]; Delete 1 2;
+     GetEvents 1 1 None None; ReplaceLast 1 (mkEvent None 7 3 5); GetEventCount 1 None None].
+Proof.
+  cbn -[Z.pow]. unfold ev_dom, is_live. cbn -[Z.pow].
+  repeat (split; try discriminate; try lia; try reflexivity); try tauto.
+  - eexists. eexists. split; [reflexivity|]. intros e0 i [<-|[<-|[]]] H; inversion H. cbn. tauto.
+  - destruct H as [<-|[<-|[]]]; cbn; lia.
+  - destruct H as [<-|[<-|[]]]; cbn -[Z.pow]; lia.
+  - eexists. eexists. split; [reflexivity|]. discriminate.
+Qed.
